@@ -87,25 +87,8 @@ func genCliCase(r *Rng, tier string) CliCase {
 		o := genOpbCase(r, tier)
 		if r.Chance(1, 4) {
 			o = genOpbUnits(r, tier)
-		}
-		for i := range o.CostW { // negative objective coefficients: known finding of C03, kept out of this stream
-			if o.CostW[i] < 0 {
-				o = genOpbCase(r, tier)
-				break
-			}
-		}
-		neg := false
-		for _, w := range o.CostW {
-			if w < 0 {
-				neg = true
-			}
-		}
-		if neg {
-			o.CostLits, o.CostW = nil, nil
-			o.Text = o.Text[strings.Index(o.Text, ";\n")+2:]
-			if strings.HasPrefix(o.Text, "min:") {
-				o.Text = ""
-			}
+		} else if r.Chance(1, 3) {
+			o = genOpbCaseMode(r, tier, true) // optima around 0, reached at once or in one or two steps
 		}
 		c := CliCase{Ext: "opb", Opb: &o, Text: o.Text, Flags: withV()}
 		if r.Chance(1, 4) {
